@@ -21,6 +21,17 @@ def cases(rng, tier):
         kind = rng.choice(["qft", "qft_swapped"])
         cs.append({"kind": "applyraw", "n": n, "raw": gen.random_state(rng, n), "e": (kind, m)})
         cs.append({"kind": "applyraw", "n": n, "raw": gen.random_state(rng, n), "e": ("mul", (kind, m), ("dgr", (kind, m)))})
+    # the transform does not depend on the threading model: every admissible worker count (those that do not divide the
+    # buffer included) on registers of 4-7 qubits, dense states and Fourier inputs, forward and inverse
+    import os
+    cores = os.cpu_count() or 4
+    for w in [k for k in (2, 3, 5, 6, 7) if k <= cores]:
+        for n in (4, 5, 6, 7):
+            for rep in range(1 if tier == "quick" else 6):
+                kind = rng.choice(["qft", "qft_swapped"])
+                m = (1 << n) - 1 if rep == 0 else rng.randrange(3, 1 << n)
+                cs.append({"kind": "applyraw", "n": n, "raw": gen.random_state(rng, n), "e": (kind, m), "threads": w})
+                cs.append({"kind": "applybasis", "n": n, "j": rng.randrange(1 << n), "e": ("dgr", (kind, m)), "threads": w})
     # registers too large for the model's buffers (17-18 qubits): basis states through the full-register transforms,
     # judged by the DFT column formula when the search for a failing input is on
     for n in (17, 18):
